@@ -25,6 +25,7 @@ type caseT struct {
 	Optimize bool             `json:"optimize"`
 	Input    int              `json:"input"`
 	W        string           `json:"w"`
+	Marker   int              `json:"marker"` // rule that carries a trailing state marker, -1 = none
 }
 
 func main() { core.Main("C06", "model_checking", run, replay, nil) }
@@ -49,8 +50,19 @@ func configs(g *gramenum.Gram) [][]gramenum.Input {
 	return out
 }
 
+// markerAt >= 0 inserts a state marker at the end of that rule (markers must not change behaviour,
+// and rule lengths used for rule equivalence must not count them).
+var markerRule = -1
+
 func build(g *gramenum.Gram, inputs []gramenum.Input, sameAttr, minimize, optimize bool) (*lalr.Grammar, *lalr.Tables, error) {
+	return buildM(g, inputs, sameAttr, minimize, optimize, -1)
+}
+
+func buildM(g *gramenum.Gram, inputs []gramenum.Input, sameAttr, minimize, optimize bool, marker int) (*lalr.Grammar, *lalr.Tables, error) {
 	lg := g.ToLalr(inputs)
+	if marker >= 0 {
+		lg = g.WithMarker(inputs, marker, len(g.Rules[marker].RHS))
+	}
 	if sameAttr {
 		for i := range lg.Rules {
 			lg.Rules[i].Action = 0
@@ -144,9 +156,13 @@ func run(c *core.Ctx) {
 		for _, inputs := range configs(g) {
 			for _, same := range []bool{false, true} {
 				for _, optz := range []bool{false, true} {
-					lg, t0, e0 := build(g, inputs, same, false, optz)
-					_, t1, e1 := build(g, inputs, same, true, optz)
-					base := caseT{g.String(), g, inputs, same, optz, 0, ""}
+				for marker := -1; marker < len(g.Rules); marker++ {
+					if marker >= 0 && (!same || optz) {
+						continue // marker variants: equal rule attributes only (that is where lengths decide the classes)
+					}
+					lg, t0, e0 := buildM(g, inputs, same, false, optz, marker)
+					_, t1, e1 := buildM(g, inputs, same, true, optz, marker)
+					base := caseT{g.String(), g, inputs, same, optz, 0, "", marker}
 					if e0 != nil || e1 != nil {
 						err := e0
 						if err == nil {
@@ -156,7 +172,7 @@ func run(c *core.Ctx) {
 						continue
 					}
 					c.Eval(1)
-					if t1.NumStates < t0.NumStates {
+					if t1.NumStates < t0.NumStates && marker < 0 {
 						atomic.AddInt64(&merged, 1)
 						c.Outcome("states-merged", 1)
 					} else {
@@ -177,12 +193,13 @@ func run(c *core.Ctx) {
 							if key != "" {
 								k := base
 								k.Input, k.W = in, w
-								c.Violate(key, msg+" :: "+g.String()+fmt.Sprintf(" inputs=%v sameAttr=%v optimize=%v", inputs, same, optz), k)
+								c.Violate(key, msg+" :: "+g.String()+fmt.Sprintf(" inputs=%v sameAttr=%v optimize=%v markerAfterRule=%d", inputs, same, optz, marker), k)
 							}
 						})
 					}
 					atomic.AddInt64(&states, int64(len(seen)))
 					atomic.AddInt64(&transitions, steps)
+				}
 				}
 			}
 		}
@@ -230,8 +247,8 @@ func replay(c *core.Ctx, raw json.RawMessage) error {
 	if err := json.Unmarshal(raw, &k); err != nil {
 		return err
 	}
-	lg, t0, e0 := build(k.G, k.Inputs, k.SameAttr, false, k.Optimize)
-	_, t1, e1 := build(k.G, k.Inputs, k.SameAttr, true, k.Optimize)
+	lg, t0, e0 := buildM(k.G, k.Inputs, k.SameAttr, false, k.Optimize, k.Marker)
+	_, t1, e1 := buildM(k.G, k.Inputs, k.SameAttr, true, k.Optimize, k.Marker)
 	if e0 != nil || e1 != nil {
 		return fmt.Errorf("panic: %v %v", e0, e1)
 	}
